@@ -118,78 +118,52 @@ Lemma find_peer_set_peer s p pe pe1 :
   find_peer s p = Some pe -> p_ski pe1 = p -> find_peer (set_peer s pe1) p = Some pe1.
 Proof. unfold find_peer, set_peer, set_peers. cbn [peers]. intros H Hk. eapply find_map_replace; eauto. Qed.
 
-Lemma add_entities_ski pe m l : p_ski (add_entities pe m l) = p_ski pe /\ p_addr (add_entities pe m l) = p_addr pe.
-Proof.
-  revert pe. induction l as [|de r IH]; intros pe; [split; reflexivity|].
-  cbn [add_entities].
-  destruct (find_rent pe (de_addr de)) as [en|]; cbn zeta;
-    match goal with |- context [add_entities ?q m r] => destruct (IH q) as [H1 H2]; rewrite H1, H2 end;
-    split; reflexivity.
-Qed.
+Lemma add_entity_ski pe m de : p_ski (add_entity pe m de) = p_ski pe /\ p_addr (add_entity pe m de) = p_addr pe.
+Proof. unfold add_entity. destruct (find_rent pe (de_addr de)); split; reflexivity. Qed.
 
-Lemma check_entity_addr pe pe' de : p_addr pe = p_addr pe' -> check_entity pe de = check_entity pe' de.
+Lemma check_entity_addr i pe pe' de : p_addr pe = p_addr pe' -> check_entity i pe de = check_entity i pe' de.
 Proof. unfold check_entity. intros ->. reflexivity. Qed.
 
-Lemma all_checked_addr pe pe' l : p_addr pe = p_addr pe' -> all_checked pe l = all_checked pe' l.
-Proof.
-  intros H. unfold all_checked. induction l as [|x l IH]; [reflexivity|]. cbn [forallb].
-  rewrite IH, (check_entity_addr pe pe' x H). reflexivity.
-Qed.
+Lemma forallb_ext_in {A} (f g : A -> bool) l : (forall x, f x = g x) -> forallb f l = forallb g l.
+Proof. intros H. induction l as [|x l IH]; [reflexivity|]. cbn. rewrite H, IH. reflexivity. Qed.
 
 Lemma find_peer_remove_for_entity s pe1 en p : find_peer (remove_for_entity s pe1 en) p = find_peer s p.
 Proof. reflexivity. Qed.
 
-Lemma remove_entities_err l : forall s p pe,
+Lemma lfeats_remove_remote_entity s p e : lfeats (remove_remote_entity s p e) = lfeats s.
+Proof. unfold remove_remote_entity. destruct (find_peer s p) as [pe|]; [|reflexivity]. destruct (find_rent pe e); reflexivity. Qed.
+
+Lemma find_peer_remove_remote_entity s p e pe :
   find_peer s p = Some pe ->
-  snd (remove_entities s p l) = negb (all_checked pe l) /\
-  (all_checked pe l = true ->
-   exists pe', find_peer (fst (remove_entities s p l)) p = Some pe' /\ p_addr pe' = p_addr pe).
+  exists pe', find_peer (remove_remote_entity s p e) p = Some pe' /\ p_addr pe' = p_addr pe.
 Proof.
-  induction l as [|de r IH]; intros s p pe Hp.
-  - cbn. split; [reflexivity|]. intros _. exists pe. split; [exact Hp | reflexivity].
-  - cbn [remove_entities all_checked forallb]. rewrite Hp.
-    destruct (check_entity pe de) eqn:Hc; cbn [negb andb].
-    2:{ split; [reflexivity | discriminate]. }
-    destruct (find_rent pe (de_addr de)) as [en|].
-    + set (pe1 := {| p_ski := p_ski pe; p_addr := p_addr pe; p_ents := _ |}).
-      assert (Hp1 : find_peer (remove_for_entity (set_peer s pe1) pe1 en) p = Some pe1).
-      { rewrite find_peer_remove_for_entity. eapply find_peer_set_peer; [exact Hp|].
-        apply find_peer_ski in Hp. exact Hp. }
-      destruct (IH _ _ _ Hp1) as [He Hk].
-      assert (Ha : all_checked pe1 r = all_checked pe r) by (apply all_checked_addr; reflexivity).
-      fold (all_checked pe r). rewrite <- Ha. split; [exact He|].
-      intros Hall. destruct (Hk Hall) as [pe' [H1 H2]]. exists pe'. split; [exact H1 | exact H2].
-    + apply IH. exact Hp.
+  intros Hp. unfold remove_remote_entity. rewrite Hp.
+  destruct (find_rent pe e) as [en|]; [|exists pe; split; [exact Hp | reflexivity]].
+  set (pe1 := {| p_ski := p_ski pe; p_addr := p_addr pe;
+                 p_ents := filter (fun x => negb (eqb_eaddr (re_addr x) e)) (p_ents pe) |}).
+  exists pe1. split; [|reflexivity].
+  rewrite find_peer_remove_for_entity.
+  eapply find_peer_set_peer; [exact Hp|]. apply find_peer_ski in Hp. exact Hp.
 Qed.
 
 Definition has_state (de : disc_ent) : bool := match de_state de with Some _ => true | None => false end.
 
 Lemma notify_entries_err m l : forall s p pe,
   find_peer s p = Some pe ->
-  snd (notify_entries s p m l) =
-    match l with [] => false | _ => negb (forallb has_state l && all_checked pe (dm_ents m)) end.
+  snd (notify_entries s p m l) = negb (forallb (fun de => has_state de && check_entity false pe de) l).
 Proof.
   induction l as [|de r IH]; intros s p pe Hp; [reflexivity|].
-  cbn [notify_entries forallb]. unfold has_state at 1.
+  cbn [notify_entries forallb]. unfold has_state at 1. rewrite Hp.
   destruct (de_state de) as [[|]|]; cbn [andb]; [| |reflexivity].
-  - rewrite Hp. destruct (all_checked pe (dm_ents m)) eqn:Hall; cbn [negb].
-    2:{ rewrite andb_false_r. reflexivity. }
-    set (pe1 := add_entities pe m (dm_ents m)).
-    assert (Hp1 : find_peer (set_peer s pe1) p = Some pe1).
-    { eapply find_peer_set_peer; [exact Hp|]. unfold pe1. rewrite (proj1 (add_entities_ski _ _ _)).
-      apply find_peer_ski in Hp. exact Hp. }
-    rewrite (IH _ _ _ Hp1).
-    assert (Ha : all_checked pe1 (dm_ents m) = true).
-    { rewrite <- Hall. apply all_checked_addr. unfold pe1. apply (proj2 (add_entities_ski _ _ _)). }
-    rewrite Ha. destruct r; rewrite ?andb_true_r; reflexivity.
-  - destruct (remove_entities_err (dm_ents m) s p pe Hp) as [He Hk].
-    destruct (remove_entities s p (dm_ents m)) as [s1 err] eqn:Hre. cbn [snd fst] in He, Hk.
-    destruct (all_checked pe (dm_ents m)) eqn:Hall; cbn [negb] in He; subst err.
-    2:{ rewrite andb_false_r. reflexivity. }
-    destruct (Hk eq_refl) as [pe' [Hp' Haddr]].
-    rewrite (IH _ _ _ Hp').
-    rewrite (all_checked_addr pe' pe _ Haddr), Hall.
-    destruct r; rewrite ?andb_true_r; reflexivity.
+  - destruct (check_entity false pe de) eqn:Hc; cbn [negb andb]; [|reflexivity].
+    assert (Hp1 : find_peer (set_peer s (add_entity pe m de)) p = Some (add_entity pe m de)).
+    { eapply find_peer_set_peer; [exact Hp|]. rewrite (proj1 (add_entity_ski _ _ _)). apply find_peer_ski in Hp. exact Hp. }
+    rewrite (IH _ _ _ Hp1). f_equal. apply forallb_ext_in. intros x. f_equal.
+    apply check_entity_addr. apply (proj2 (add_entity_ski _ _ _)).
+  - destruct (check_entity false pe de) eqn:Hc; cbn [negb andb]; [|reflexivity].
+    destruct (find_peer_remove_remote_entity s p (de_addr de) pe Hp) as [pe' [Hp' Ha]].
+    rewrite (IH _ _ _ Hp'). f_equal. apply forallb_ext_in. intros x. f_equal.
+    apply check_entity_addr. exact Ha.
 Qed.
 
 Lemma discovery_notify_err s p pe m :
@@ -198,7 +172,46 @@ Proof.
   intros Hp. unfold discovery_notify, disc_notify_ok.
   pose proof (notify_entries_err m (dm_ents m) s p pe Hp) as H.
   destruct (dm_ents m) as [|de r] eqn:E; [reflexivity|].
-  rewrite H. unfold all_checked, has_state. reflexivity.
+  rewrite H. unfold has_state. reflexivity.
+Qed.
+
+Lemma add_entities_initial_err m l : forall pe,
+  snd (add_entities true pe m l) = negb (forallb (fun de => match de_addr de with [] => false | _ => true end) l).
+Proof.
+  induction l as [|de r IH]; intros pe; [reflexivity|]. cbn [add_entities forallb].
+  unfold check_entity at 1. destruct (de_addr de); cbn [negb orb andb]; [reflexivity|]. apply IH.
+Qed.
+
+Lemma discovery_reply_err s pe m : snd (discovery_reply s pe m) = negb (disc_reply_ok m).
+Proof.
+  unfold discovery_reply, disc_reply_ok.
+  match goal with |- context [add_entities true ?q m (dm_ents m)] => pose proof (add_entities_initial_err m (dm_ents m) q) as H;
+    destruct (add_entities true q m (dm_ents m)) as [pe1 err] end.
+  cbn [snd] in H. subst err. destruct (forallb _ (dm_ents m)); reflexivity.
+Qed.
+
+Lemma lfeats_notify_entries m l : forall s p, lfeats (fst (notify_entries s p m l)) = lfeats s.
+Proof.
+  induction l as [|de r IH]; intros s p; [reflexivity|]. cbn [notify_entries].
+  destruct (de_state de) as [[|]|]; destruct (find_peer s p) as [pe|]; try reflexivity;
+    (destruct (negb _); [reflexivity|]); rewrite IH; [reflexivity | apply lfeats_remove_remote_entity].
+Qed.
+
+Lemma lfeats_discovery_notify s p m : lfeats (fst (discovery_notify s p m)) = lfeats s.
+Proof. unfold discovery_notify. destruct (dm_ents m); [reflexivity|]. apply lfeats_notify_entries. Qed.
+
+Lemma lfeats_fold_remove (f : rent -> bool) p l : forall s,
+  lfeats (fold_left (fun sa en => if f en then sa else remove_remote_entity sa p (re_addr en)) l s) = lfeats s.
+Proof.
+  induction l as [|en l IH]; intros s; [reflexivity|]. cbn [fold_left]. rewrite IH.
+  destruct (f en); [reflexivity | apply lfeats_remove_remote_entity].
+Qed.
+
+Lemma lfeats_discovery_reply s pe m : lfeats (fst (discovery_reply s pe m)) = lfeats s.
+Proof.
+  unfold discovery_reply.
+  match goal with |- context [add_entities true ?q m (dm_ents m)] => destruct (add_entities true q m (dm_ents m)) as [pe1 err] end.
+  destruct err; [reflexivity|]. cbn [fst]. rewrite lfeats_fold_remove. reflexivity.
 Qed.
 
 (* ------------------------------------------------------------------ the dispatcher against the table *)
@@ -302,7 +315,8 @@ Definition nm_resp (s : st) (p : N) (lf : lfeat) (d : dgram) (c : cls) (pl : pay
 
 Definition nm_noerr (s : st) (pe : peer) (c : cls) (pl : payload) : bool :=
   match pl, c with
-  | PDiscovery _, CRead | PDiscovery _, CReply => true
+  | PDiscovery _, CRead => true
+  | PDiscovery m, CReply => disc_reply_ok m
   | PDiscovery m, CNotify => disc_notify_ok pe m
   | PSubReq rc, CCall => sub_granted s pe rc
   | PSubDel rc, CCall => sub_deletable s pe rc
@@ -333,6 +347,7 @@ Proof.
     | |- context [reg_result ?r] =>
         destruct (reg_result_spec r) as [H1 H2]; rewrite H1, H2; split; [reflexivity|]
     end.
+  - rewrite discovery_reply_err. destruct (disc_reply_ok m); reflexivity.
   - rewrite (discovery_notify_err s (p_ski pe) pe m Hp). destruct (disc_notify_ok pe m); reflexivity.
   - rewrite add_subscription_err. destruct (sub_granted s pe c0); reflexivity.
   - rewrite remove_subscription_err. destruct (sub_deletable s pe c0); reflexivity.
@@ -605,23 +620,6 @@ Proof.
   - reflexivity.
 Qed.
 
-Lemma sig_remove_entities l : forall s p, sig (fst (remove_entities s p l)) = sig s.
-Proof.
-  induction l as [|de r IH]; intros s p; [reflexivity|]. cbn [remove_entities].
-  destruct (find_peer s p) as [pe|]; [|reflexivity].
-  destruct (negb _); [reflexivity|].
-  destruct (find_rent pe (de_addr de)) as [en|]; [|apply IH]. rewrite IH. reflexivity.
-Qed.
-
-Lemma sig_notify_entries m l : forall s p, sig (fst (notify_entries s p m l)) = sig s.
-Proof.
-  induction l as [|de r IH]; intros s p; [reflexivity|]. cbn [notify_entries].
-  destruct (de_state de) as [[|]|]; [| |reflexivity].
-  - destruct (find_peer s p) as [pe|]; [|reflexivity]. destruct (negb _); [reflexivity|]. rewrite IH. reflexivity.
-  - pose proof (sig_remove_entities (dm_ents m) s p) as H.
-    destruct (remove_entities s p (dm_ents m)) as [s1 err]. cbn [fst] in H. destruct err; [exact H|]. rewrite IH. exact H.
-Qed.
-
 Lemma sig_reg_result (r : st * bool) s : sig (fst r) = sig s -> sig (fst (fst (reg_result r))) = sig s.
 Proof. destruct r as [s1 e]. cbn. auto. Qed.
 
@@ -629,7 +627,8 @@ Lemma sig_nm_dispatch s pe lf d c pl : sig (fst (fst (nm_dispatch s pe lf d c pl
 Proof.
   unfold nm_dispatch, err_general.
   destruct pl; destruct c; try reflexivity; apply sig_reg_result.
-  - unfold discovery_notify. destruct (dm_ents m); [reflexivity|]. apply sig_notify_entries.
+  - unfold sig. rewrite lfeats_discovery_reply. reflexivity.
+  - unfold sig. rewrite lfeats_discovery_notify. reflexivity.
   - unfold add_subscription. repeat match goal with |- context [match ?x with _ => _ end] => destruct x end; reflexivity.
   - unfold remove_subscription. repeat match goal with |- context [match ?x with _ => _ end] => destruct x end; reflexivity.
   - unfold add_binding. repeat match goal with |- context [match ?x with _ => _ end] => destruct x end; reflexivity.
